@@ -788,7 +788,26 @@ class Walker(object):
           else:
             self.attrs[target.attr] = V(dict(v.alts), rng=v.rng or rng_like(target.attr), ref=v.ref)
     elif isinstance(target, ast.Subscript):
-      self.expr_quiet(target.value)
+      # container taint: `kwargs['seed'] = seed` makes the container carry the seed
+      self.taint(target.value, v)
+
+  def taint(self, container, v):
+    if isinstance(container, ast.Name) and container.id in self.env:
+      old = self.env[container.id]
+      if self.guard in ('seedNone', 'seedSome'):
+        other = 'seedSome' if self.guard == 'seedNone' else 'seedNone'
+        self.env[container.id] = V({self.guard: derived(old.under(self.guard), v.under(self.guard)),
+                                    other: old.under(other)}, rng=old.rng, ref=old.ref)
+      else:
+        new = combine([old, v])
+        new.rng, new.ref = old.rng, old.ref
+        self.env[container.id] = new
+    elif isinstance(container, ast.Attribute) and isinstance(container.value, ast.Name) and container.value.id == 'self' \
+        and self.collect_attrs and container.attr in self.attrs:
+      old = self.attrs[container.attr]
+      new = combine([old, v])
+      new.rng, new.ref = old.rng, old.ref
+      self.attrs[container.attr] = new
 
   # ---- expressions
   def expr(self, node):
@@ -1110,6 +1129,9 @@ class Walker(object):
           out.ref = ('instance', ref[1], q if has_seed_param else None)
       return out
 
+    if isinstance(node.func, ast.Attribute) and node.func.attr in ('append', 'extend', 'update', 'setdefault', 'insert', 'add') \
+        and allargs:
+      self.taint(node.func.value, combine(allargs))
     # ---- method on a stored generator / key:  self._rng.uniform(..), rng.shuffle(..)
     if isinstance(node.func, ast.Attribute):
       base = self.expr(node.func.value)
